@@ -17,6 +17,8 @@ func main() {
 		cmdVerify(os.Args[2:])
 	case "check":
 		cmdCheck(os.Args[2:])
+	case "names":
+		cmdNames(os.Args[2:])
 	case "replay-conc":
 		o, log, err := replayConc("/repo", os.Args[2])
 		fmt.Println(o, err)
